@@ -246,15 +246,17 @@ Definition vocab : list str :=
 Definition in_vocab (w : str) : bool := existsb (str_eqb w) vocab.
 
 (* a property value is "in its schema enumeration" as far as the formatter
-   reads it: vertAlign is superscript or subscript *)
+   reads it: vertAlign is superscript, subscript or baseline (ST_VerticalAlignRun) *)
 Definition vals_ok (pr : list (str * option str)) : Prop :=
   forall v, dict_get (s2l "vertAlign"%string) pr = Some v ->
-            v = Some (s2l "superscript"%string) \/ v = Some (s2l "subscript"%string).
+            v = Some (s2l "superscript"%string) \/ v = Some (s2l "subscript"%string)
+            \/ v = Some (s2l "baseline"%string).
 
 (* the same requirement on every occurrence of the key, not only the first *)
 Definition vals_all (pr : list (str * option str)) : Prop :=
   forall v, In (s2l "vertAlign"%string, v) pr ->
-            v = Some (s2l "superscript"%string) \/ v = Some (s2l "subscript"%string).
+            v = Some (s2l "superscript"%string) \/ v = Some (s2l "subscript"%string)
+            \/ v = Some (s2l "baseline"%string).
 
 Definition tag_ok (x : str) : Prop := exists w, first_word x = Ok w /\ in_vocab w = true.
 Definition tag_okb (x : str) : bool :=
@@ -432,11 +434,13 @@ Proof.
   { eapply (foldM_inv cp_inv); [|constructor|exact E].
     intros d [k v] d' Hin Hd Hs. cbn [fst snd] in Hs.
     destruct (dict_get k xml2html_table) as [hf|] eqn:Eg.
-    - destruct (eval_fexpr (hf_expr hf) k (ostr v)) as [s|] eqn:Ee; [cbn [bind] in Hs|discriminate Hs].
+    - destruct (is_off v) eqn:Eoff; [injection Hs as <-; exact Hd|].
+      destruct (eval_fexpr (hf_expr hf) k (ostr v)) as [s|] eqn:Ee; [cbn [bind] in Hs|discriminate Hs].
       injection Hs as <-.
       assert (Hvk : k = s2l "vertAlign"%string ->
                     v = Some (s2l "superscript"%string) \/ v = Some (s2l "subscript"%string)).
-      { intro Ek. apply Hv. rewrite <- Ek. exact Hin. }
+      { intro Ek. destruct (Hv v) as [Hq|[Hq|Hq]]; [rewrite <- Ek; exact Hin|left; exact Hq|right; exact Hq|].
+        subst v. vm_compute in Eoff. discriminate Eoff. }
       destruct (entry_step k v hf s Eg Hvk Ee) as [Hc Ht].
       apply cp_add_inv; [exact Hc|exact Ht|exact Hd].
     - injection Hs as <-. exact Hd. }
@@ -489,8 +493,8 @@ Lemma format_vocab_dup_refuted : exists pr st,
   ~ Forall (fun x => exists w, first_word x = Ok w /\ in_vocab w = true) st.
 Proof.
   exists [(s2l "vertAlign"%string, Some (s2l "superscript"%string));
-          (s2l "vertAlign"%string, Some (s2l "baseline"%string))].
-  exists [s2l "bas"%string; s2l "sup"%string].
+          (s2l "vertAlign"%string, Some (s2l "bogus"%string))].
+  exists [s2l "bog"%string; s2l "sup"%string].
   split; [|split].
   - intros v H. vm_compute in H. injection H as <-. left. reflexivity.
   - vm_compute. reflexivity.
@@ -551,28 +555,35 @@ Qed.
 Lemma format_empty_table : forall pr, format_Pr_into_html pr [] = Ok [].
 Proof.
   intros pr. unfold format_Pr_into_html.
-  assert (E : forall d, foldM (fun (d : list (cp_key * list str)) (kv : str * option str) =>
-                 match dict_get (fst kv) (@nil (str * hformatter)) with
-                 | None => Ok d
-                 | Some hf =>
-                     s <- eval_fexpr (hf_expr hf) (fst kv) (ostr (snd kv)) ;;
-                     Ok (cp_add (hf_container hf, hf_property hf) s d)
-                 end) pr d = Ok d).
+  match goal with
+  | |- (bind (foldM ?f pr []) _ = _) =>
+      assert (E : forall d, foldM f pr d = Ok d)
+  end.
   { induction pr as [|kv r IH]; intro d; cbn [foldM dict_get bind]; [reflexivity|apply IH]. }
   rewrite E. reflexivity.
 Qed.
 
-(* known finding D9: vertAlign=baseline gives the tag "bas" *)
-Lemma baseline_refuted : exists pr st,
-  format_Pr_into_html pr xml2html_table = Ok st /\
-  ~ Forall (fun x => exists w, first_word x = Ok w /\ in_vocab w = true) st.
+(* D9 (repaired): vertAlign=baseline is a switched-off property: no tag *)
+Lemma baseline_no_tag :
+  format_Pr_into_html [(s2l "vertAlign"%string, Some (s2l "baseline"%string))] xml2html_table = Ok [].
+Proof. vm_compute. reflexivity. Qed.
+
+(* D8 (repaired): a property switched off produces no tag, whatever the table says *)
+Lemma off_value_no_tag : forall k v x2h,
+  is_off v = true -> format_Pr_into_html [(k, v)] x2h = Ok [].
 Proof.
-  exists [(s2l "vertAlign"%string, Some (s2l "baseline"%string))].
-  exists [s2l "bas"%string].
-  split.
-  - vm_compute. reflexivity.
-  - intro H. inversion H as [|? ? [w [Hw Hin]] _]; subst.
-    vm_compute in Hw. injection Hw as <-. vm_compute in Hin. discriminate Hin.
+  intros k v x2h H. unfold format_Pr_into_html. cbn [foldM fst snd].
+  destruct (dict_get k x2h); [rewrite H|]; reflexivity.
+Qed.
+
+Lemma off_values_are : forall s, is_off (Some s) = true <->
+  In s [[48] (* "0" *); s2l "false"%string; s2l "off"%string; s2l "none"%string; s2l "baseline"%string].
+Proof.
+  intro s. unfold is_off. rewrite existsb_exists. split.
+  - intros [x [Hin Hx]]. apply str_eqb_eq in Hx. subst x.
+    cbn in Hin. cbn. intuition.
+  - intro H. exists s. split; [|apply str_eqb_refl].
+    cbn in H. cbn. intuition.
 Qed.
 
 (* ================================================================== *)
@@ -930,7 +941,9 @@ Print Assumptions format_vocab_partial.
 Print Assumptions format_vocab_dup_refuted.
 Print Assumptions run_formatting_vocab.
 Print Assumptions format_empty_table.
-Print Assumptions baseline_refuted.
+Print Assumptions baseline_no_tag.
+Print Assumptions off_value_no_tag.
+Print Assumptions off_values_are.
 Print Assumptions html_map_structure.
 Print Assumptions html_map_concat_labels_strong.
 Print Assumptions html_map_concat_labels.
